@@ -1471,10 +1471,17 @@ class AstEval:
                 else:
                     raise NameError(f"name '{arg1.id}' is not defined")
             elif isinstance(arg1, ast.Attribute):
-                var_name = await self.ast_attribute_collapse(arg1, check_undef=False)
-                if not isinstance(var_name, str):
-                    raise NameError("state name should be 'domain.entity' or 'domain.entity.attr'")
-                State.delete(var_name)
+                #
+                # a dotted name whose first portion is undefined is a state variable or
+                # state attribute; otherwise delete the attribute of the evaluated object
+                #
+                var_name = await self.ast_attribute_collapse(arg1)
+                if isinstance(var_name, str):
+                    State.delete(var_name)
+                else:
+                    delattr(await self.aeval(arg1.value), arg1.attr)
+            elif isinstance(arg1, (ast.Tuple, ast.List)):
+                await self.ast_delete(ast.Delete(targets=arg1.elts))
             else:
                 raise NotImplementedError(f"unknown target type {arg1} in del")
 
